@@ -393,9 +393,12 @@ def post_goals(sysd, rng_perm):
     # deterministic interleaving derived from the stored number `perm`
     import random as _r
     r = _r.Random(int(sysd["perm"] * 1e9))
-    goals = doms + cons
+    # the domains of 0/1 variables stay in front: a constraint posted earlier could bind such a variable to
+    # another integer, and clpz raises a domain_error (instead of failing) when it is then used as a truth value
+    first = [g for g, d in zip(doms, sysd["doms"]) if dom_set(tuple_deep(d)) <= {0, 1}]
+    goals = [g for g in doms if g not in first] + cons
     r.shuffle(goals)
-    return goals
+    return first + goals
 
 
 def make_system_case(cid, sysd, optsets, optim=None):
@@ -955,7 +958,7 @@ def run(ctx):
         for i, c in enumerate(diff.load_corpus("C27")):
             c = dict(c, id="k%d" % i)
             cases.append(rebuild(c))
-        nsys, nbig, ngr, ndom = (170, 60, 300, 80) if tier == "quick" else (1200, 400, 4000, 800)
+        nsys, nbig, ngr, ndom = (170, 60, 300, 80) if tier == "quick" else (3000, 1000, 8000, 1600)
         k = 0
         for big, cnt in ((False, nsys), (True, nbig)):
             # candidates are first solved by the reference; systems with at least one solution and
